@@ -909,6 +909,20 @@ pub fn c16(tier: Tier, seed: u64) -> Verdict {
     )
 }
 
+/// one fuzz iteration: bytes as UTF-8, and reinterpreted as u16 units as UTF-16, with a clean heap
+pub fn fuzz_decode_case(data: &[u8]) -> Result<(), String> {
+    begin();
+    let units: Vec<u16> = data.chunks_exact(2).map(|c| u16::from_le_bytes([c[0], c[1]])).collect();
+    let r = check_utf8(data).and_then(|_| check_utf16(&units));
+    let clean = heap_clean();
+    end();
+    r?;
+    match clean {
+        Some(d) => Err(d),
+        None => Ok(()),
+    }
+}
+
 /// replay of value-domain cases
 pub fn replay_value(case: &Value) -> Option<Vec<(usize, String, String)>> {
     let kind = case.get("kind")?.as_str()?;
